@@ -72,6 +72,9 @@ pub enum Kernel {
     RangeProbe,
     /// returns wave[index] + subindex/os (exact evaluation instant for the index signal)
     LinearProbe,
+    /// a user-written interpolator of exactly `sinc_len` taps (any length, also odd: only the built-in kernels
+    /// need multiples of 8), with the range accounting of RangeProbe; for twin comparisons, not for fidelity
+    OddProbe,
 }
 
 #[derive(Clone, Debug, PartialEq, Serialize, Deserialize)]
@@ -171,6 +174,10 @@ impl Config {
                 c.os = 2;
                 labels.push("excluded:D13(cubic|quadratic,os=1->2)");
             }
+            if c.kind.is_sinc() && c.kernel == Kernel::OddProbe && c.sinc_len < 8 {
+                c.sinc_len = 8;
+                labels.push("excluded:D18(user-written interpolator shorter than 8 taps -> 8)");
+            }
         }
         (c, labels)
     }
@@ -185,6 +192,9 @@ impl Config {
     pub fn filt_len(&self) -> usize {
         match self.kind {
             Kind::FastIn | Kind::FastOut => 8,
+            // known finding D18: user-written interpolators shorter than 8 taps (no built-in kernel can be) get windows one
+            // frame past the buffer; excluded by construction (lengths below 8 are raised to 8) unless a known-finding replay asks
+            Kind::SincIn | Kind::SincOut if self.kernel == Kernel::OddProbe => if self.allow_known { self.sinc_len.max(1) } else { self.sinc_len.max(8) },
             Kind::SincIn | Kind::SincOut => 8 * ((self.sinc_len as f32 / 8.0).ceil() as usize),
             _ => 0,
         }
@@ -288,6 +298,63 @@ pub const INDEX_BASE: f64 = 1000.0;
 /// is itself stale by the full data shift.
 pub const PROBE_POISON: f64 = 1.0 / 1024.0;
 
+pub struct OddProbe {
+    len: usize,
+    os: usize,
+    /// table[sub][tap], f64
+    table: Vec<Vec<f64>>,
+    stat: Arc<ProbeStat>,
+}
+impl OddProbe {
+    pub fn new(len: usize, os: usize, fc: f64, stat: Arc<ProbeStat>) -> OddProbe {
+        let os = os.max(1);
+        let centre = (len / 2) as f64;
+        let pi = std::f64::consts::PI;
+        let mut table = vec![vec![0.0f64; len]; os];
+        for (s, row) in table.iter_mut().enumerate() {
+            for (k, h) in row.iter_mut().enumerate() {
+                let x = k as f64 - centre + 1.0 - (s as f64 + 1.0) / os as f64;
+                let w = 0.5 + 0.5 * (2.0 * pi * x / (len as f64 + 1.0)).cos();
+                let a = pi * fc * x;
+                *h = fc * w * if a.abs() < 1e-12 { 1.0 } else { a.sin() / a };
+            }
+        }
+        OddProbe { len, os, table, stat }
+    }
+}
+impl<T: SampleX> SincInterpolator<T> for OddProbe {
+    fn get_sinc_interpolated(&self, wave: &[T], index: usize, subindex: usize) -> T {
+        let s = &self.stat;
+        s.calls.fetch_add(1, Ordering::Relaxed);
+        s.wave_len.store(wave.len() as u64, Ordering::Relaxed);
+        let end = index.checked_add(self.len);
+        let ok = matches!(end, Some(e) if e < wave.len());
+        if subindex >= self.os {
+            s.bad_sub.fetch_add(1, Ordering::Relaxed);
+        }
+        if !ok {
+            s.out_of_range.fetch_add(1, Ordering::Relaxed);
+            return T::of64(0.0);
+        }
+        s.max_end.fetch_max(end.unwrap() as u64, Ordering::Relaxed);
+        s.min_start.fetch_min(index as u64, Ordering::Relaxed);
+        if subindex >= self.os {
+            return T::of64(0.0);
+        }
+        let row = &self.table[subindex];
+        let mut acc = 0.0f64;
+        for k in 0..self.len {
+            acc += row[k] * wave[index + k].f64v();
+        }
+        T::of64(acc)
+    }
+    fn len(&self) -> usize {
+        self.len
+    }
+    fn nbr_sincs(&self) -> usize {
+        self.os
+    }
+}
 pub struct LinearProbe {
     len: usize,
     os: usize,
@@ -364,6 +431,10 @@ fn make_kernel<T: SampleX>(c: &Config) -> Result<(Box<dyn SincInterpolator<T>>, 
         Kernel::LinearProbe => {
             let stat = ProbeStat::new();
             (Box::new(LinearProbe { len: l, os: c.os, stat: stat.clone() }), Some(stat))
+        }
+        Kernel::OddProbe => {
+            let stat = ProbeStat::new();
+            (Box::new(OddProbe::new(l, c.os, fc as f64, stat.clone())), Some(stat))
         }
     })
 }
@@ -534,7 +605,12 @@ pub fn config_strategy(sp: CfgSpace) -> BoxedStrategy<Config> {
                     4 => Kernel::Avx,
                     _ => {
                         if sp.probes {
-                            Kernel::RangeProbe
+                            // a third of the probing kernels: a user-written interpolator of the literal (often odd) length
+                            if (sinc_len + os + chunk) % 3 == 0 {
+                                Kernel::OddProbe
+                            } else {
+                                Kernel::RangeProbe
+                            }
                         } else {
                             Kernel::Dispatch
                         }
